@@ -66,6 +66,7 @@ func report(prop, tier string, seed int, results []*harnessResult, loadDur, wall
 	var bounds, outside []string
 	violations := []Oblig{}
 	knownPrinted := map[string]bool{}
+	knownCount := map[string]int{} // listed known finding -> obligation instances that hit it on this run
 	reachOK := true
 	var witnessSamples []map[string]interface{}
 	for _, r := range results {
@@ -143,6 +144,7 @@ func report(prop, tier string, seed int, results []*harnessResult, loadDur, wall
 				if listed && kf.Status == "known" && kf.Property == prop {
 					a.knownHits++
 					a.knownIDs[ob.Known] = true
+					knownCount[ob.Known]++
 					if !knownPrinted[ob.Known] {
 						knownPrinted[ob.Known] = true
 						fmt.Printf("KNOWN-FINDING: property=%s %s: %s\n", prop, ob.Known, kf.What)
@@ -364,6 +366,10 @@ func report(prop, tier string, seed int, results []*harnessResult, loadDur, wall
 			turnFuncs = append(turnFuncs, strings.ReplaceAll(f, modPath, "turn"))
 		}
 	}
+	var knownList []map[string]interface{}
+	for _, id := range sortedKeys(knownPrinted) {
+		knownList = append(knownList, map[string]interface{}{"id": id, "obligation_instances": knownCount[id], "what": known[id].What})
+	}
 	ev := map[string]interface{}{
 		"property_id": prop,
 		"tier":        tier,
@@ -372,6 +378,7 @@ func report(prop, tier string, seed int, results []*harnessResult, loadDur, wall
 		"wall_s":      wall.Seconds(),
 		"violations":  len(violations),
 		"coverage": map[string]interface{}{
+			"known_findings_hit":            knownList,
 			"states":                        totalPaths,
 			"transitions":                   totalInstrs,
 			"traces_validated_against_impl": validated + witnessValidated,
